@@ -46,6 +46,10 @@ def gen_cases(ctx):
         tree_ops=(5, 7) if ctx.tier == "quick" else (6, 9),
         big=True,
     )
+    for i in range(ctx.scale(6, 300)):
+        # a long-lived process that builds, schedules and drops many instances whose operations
+        # have many alternative machines
+        yield {"kind": "churn", "seed": ctx.rng.randrange(2**31), "instance": {"cls": "churn"}, "filter": None}
     yield from W.bench_cases(ctx, BENCH_QUICK if ctx.tier == "quick" else BENCH_THOROUGH)
     if ctx.tier == "thorough" and ctx.shard == 0:
         yield {"kind": "pytest", "seed": 0}
@@ -112,6 +116,40 @@ def run_case(ctx, case):
             n = W.run_tree(ctx, case, H(ctx))
             ctx.note_case(case, gen.competing(case["instance"]))
             ctx.count("trees_complete" if n < case.get("limit", 1 << 30) else "trees_truncated")
+        elif kind == "churn":
+            import random
+            rng = random.Random(case["seed"])
+            for k in range(40):
+                M = rng.randint(11, 14)
+                inst = {"cls": "flexible",
+                        "durations": [[rng.randint(1, 5) for _ in range(2)] for _ in range(rng.randint(2, 3))],
+                        "machines": None}
+                inst["machines"] = [[sorted(rng.sample(range(M), rng.randint(9, M - 1))) for _ in job]
+                                    for job in inst["durations"]]
+                inst["machines"][0][0] = sorted(set(inst["machines"][0][0]) | {M - 1})   # all M machines exist
+                run = W.Run(inst, None)
+                while not run.done():
+                    o = rng.choice(run.r.ready())
+                    bad = [m for m in range(M) if m not in run.r.op_machines[o]]
+                    if bad:
+                        ctx.count("refusable_requests_tried")
+                        try:
+                            run.d.dispatch(run.op(o), rng.choice(bad))
+                        except Exception:
+                            pass
+                        else:
+                            ctx.count("refusable_requests_accepted")
+                            H(ctx).accepted_invalid(run, o, -1)
+                            return
+                    run.dispatch(o, rng.choice(run.r.op_machines[o]))
+                errs = feasibility_errors(run.r, schedule_triples(run.d.schedule), require_complete=True)
+                if errs or schedule_triples(run.d.schedule) != run.r.triples():
+                    ctx.violation("c01_infeasible_schedule", {"errors": errs[:5], "instance": inst,
+                                                              "history": list(run.r.history)})
+                    return
+                del run
+            ctx.count("short_lived_instances_with_many_alternative_machines", 40)
+            ctx.note_case(case, True, fingerprint="churn:%s" % case["seed"])
         elif kind == "consumer":
             W.run_consumer(ctx, case, H(ctx))
             ctx.note_case(case, gen.competing(case["instance"]))
